@@ -49,6 +49,10 @@ func (its *WiredDatatype) ReceiveRemoteModelOperations(ops []*model.Operation, o
 		switch modelOp.GetOpType() {
 		case model.TypeOfOperation_TRANSACTION:
 			txOp := operations.ModelToOperation(modelOp).(*operations.TransactionOperation)
+			if txOp.GetNumOfOps() < 1 || i+int(txOp.GetNumOfOps()) > len(ops) {
+				// an incomplete unit must not be applied in part (and must not be sliced past the end)
+				return nil, errors.DatatypeTransaction.New(its.L(), "incomplete transaction: not matched number of operations")
+			}
 			opList = append(opList, txOp)
 			transaction = ops[i : i+int(txOp.GetNumOfOps())]
 			i += int(txOp.GetNumOfOps())
